@@ -370,7 +370,10 @@ def key_lists(tier, seed):
     def fbits(x):
         return "%016x" % struct.unpack(">Q", struct.pack(">d", x))[0]
     FL = [float("-inf"), -2.0**63, -2.0**53 - 2, -65536.5, -2.0, -1.5, -1.0, -0.5, -2.0**-20, -0.0, 0.0, 2.0**-40, 2.0**-20,
-          0.5, 1.0, 1.5, 2.0, 255.0, 256.0, 65536.5, 2.0**53, 2.0**53 + 2, 2.0**63, float("inf")]
+          0.5, 1.0, 1.5, 2.0, 255.0, 256.0, 65536.5, 2.0**53, 2.0**53 + 2, 2.0**63, float("inf"),
+          # magnitudes far below 1: subnormals, the smallest normal number, values around the machine epsilon
+          5e-324, -5e-324, 1e-310, 2.2250738585072014e-308, -2.2250738585072014e-308, 1e-300, -1e-300, 2e-300,
+          1e-20, 2e-20, -1e-17, 2.0**-53, 2.0**-52, -2.0**-52, 2.0**-51, 1.7976931348623157e308, -1.7976931348623157e308]
     STR = ["", "\x00", "\x00\x00", "\x00\x01", "\x01", "\x01\x00", "a", "a\x00", "a\x00b", "ab", "b", "\x7f", "A", "aa",
            "\x00\x7f", "a\x01"]
     BLOB = [[], [0], [0, 0], [0, 255], [0, 1], [1], [255], [255, 0], [0, 255, 0], [1, 0], [254], [0, 254], [255, 255]]
